@@ -47,6 +47,16 @@ func taintFrom(fn *ssa.Function, src []ssa.Value) map[ssa.Value]bool {
 							}
 						}
 					}
+					if ia, ok := x.Addr.(*ssa.IndexAddr); ok {
+						// element of a local array (varargs): slices of that array
+						if al, ok := ia.X.(*ssa.Alloc); ok {
+							for _, r2 := range *al.Referrers() {
+								if sl, ok := r2.(*ssa.Slice); ok {
+									add(sl)
+								}
+							}
+						}
+					}
 					if fa, ok := x.Addr.(*ssa.FieldAddr); ok {
 						// struct field of a local: loads of the same field address expression
 						for _, b := range fn.Blocks {
@@ -117,6 +127,9 @@ func guardsAbort(i *ssa.If) bool {
 	b := i.Block()
 	fn := b.Parent()
 	for k := range b.Succs {
+		if blockAborts(b.Succs[k]) {
+			return true // `a || b` form: the aborting block has several predecessors
+		}
 		for _, bb := range fn.Blocks {
 			if edgeDominates(b, k, bb) && blockAborts(bb) {
 				return true
@@ -124,6 +137,151 @@ func guardsAbort(i *ssa.If) bool {
 		}
 	}
 	return false
+}
+
+// returnsDeviceVerdict: fn reads device output and a result of fn derives from
+// it (the caller decides over the abort).
+func returnsDeviceVerdict(fn *ssa.Function, sources func(cs *callSite) bool) bool {
+	var src []ssa.Value
+	for _, cs := range callsOf(fn) {
+		if sources(cs) && cs.In.Value() != nil {
+			src = append(src, cs.In.Value())
+		}
+	}
+	if len(src) == 0 {
+		return false
+	}
+	if fn.Signature.Results().Len() == 0 {
+		return false
+	}
+	t := taintFrom(fn, src)
+	for _, ret := range returnsOf(fn) {
+		for _, v := range ret.Results {
+			if t[v] {
+				return true
+			}
+		}
+	}
+	// control dependence: which return is taken depends on the output
+	if len(returnsOf(fn)) > 1 {
+		for _, b := range fn.Blocks {
+			if i := ifOf(b); i != nil && t[i.Cond] {
+				return true
+			}
+		}
+	}
+	return false
+}
+
+// verdictMustReachAbortGuard: on every path from the call to a return of the
+// caller, a condition computed from the call's result (phis count only along
+// the edge that carries the result, so a later assignment that overwrites the
+// verdict loses it) guards an abort.  Returns "" or a description of the path
+// on which the verdict is lost.
+func verdictMustReachAbortGuard(p *Prog, call ssa.Instruction) string {
+	v := call.(ssa.Value)
+	var derives func(x ssa.Value, car map[ssa.Value]bool, d int) bool
+	derives = func(x ssa.Value, car map[ssa.Value]bool, d int) bool {
+		if car[x] {
+			return true
+		}
+		if d > 6 {
+			return false
+		}
+		switch y := x.(type) {
+		case *ssa.BinOp:
+			return derives(y.X, car, d+1) || derives(y.Y, car, d+1)
+		case *ssa.UnOp:
+			return derives(y.X, car, d+1)
+		case *ssa.Extract:
+			return derives(y.Tuple, car, d+1)
+		case *ssa.Convert:
+			return derives(y.X, car, d+1)
+		case *ssa.ChangeType:
+			return derives(y.X, car, d+1)
+		case *ssa.MakeInterface:
+			return derives(y.X, car, d+1)
+		case *ssa.Call:
+			for _, a := range y.Common().Args {
+				if derives(a, car, d+1) {
+					return true
+				}
+			}
+		}
+		return false
+	}
+	type state struct {
+		b   *ssa.BasicBlock
+		key string
+	}
+	seen := map[state]bool{}
+	keyOf := func(car map[ssa.Value]bool) string {
+		var l []string
+		for c := range car {
+			l = append(l, c.Name())
+		}
+		sort.Strings(l)
+		return strings.Join(l, ",")
+	}
+	var lost string
+	var walk func(b *ssa.BasicBlock, from int, car map[ssa.Value]bool)
+	walk = func(b *ssa.BasicBlock, from int, car map[ssa.Value]bool) {
+		if lost != "" {
+			return
+		}
+		st := state{b, keyOf(car)}
+		if from == 0 {
+			if seen[st] {
+				return
+			}
+			seen[st] = true
+		}
+		for _, in := range b.Instrs[from:] {
+			if isAbortCall(in) {
+				return
+			}
+			switch x := in.(type) {
+			case *ssa.Panic:
+				return
+			case *ssa.Return:
+				lost = "return at " + p.ipos(x)
+				return
+			case *ssa.Store:
+				if car[x.Val] {
+					lost = "the verdict is stored into memory at " + p.ipos(x) + " (not followed)"
+					return
+				}
+			case *ssa.If:
+				if derives(x.Cond, car, 0) && guardsAbort(x) {
+					return
+				}
+			}
+		}
+		for _, s := range b.Succs {
+			idx := -1
+			for i, pr := range s.Preds {
+				if pr == b {
+					idx = i
+				}
+			}
+			nc := map[ssa.Value]bool{}
+			for c := range car {
+				nc[c] = true
+			}
+			for _, in := range s.Instrs {
+				ph, ok := in.(*ssa.Phi)
+				if !ok {
+					break
+				}
+				if idx >= 0 && car[ph.Edges[idx]] {
+					nc[ph] = true
+				}
+			}
+			walk(s, 0, nc)
+		}
+	}
+	walk(call.Block(), instrIndex(call)+1, map[ssa.Value]bool{v: true})
+	return lost
 }
 
 // validatesDeviceOutput: fn reads device output (GetOutput / GetCmdOutput /
@@ -159,11 +317,11 @@ func isConnRead(cs *callSite) bool {
 	return false
 }
 
-func ruleOutputValidated(p *Prog, m *Model, r *Report) {
+func ruleOutputValidated(p *Prog, m *Model, r *Report, only string) {
 	r.rule("R09.1", "Every function outside package console that puts a change command on the wire with the raw (*console.Conn).Send (asa, ios, linux `cmd`) validates the device's answer before it returns: a validating function (reads GetOutput, and the output — through StripEcho/stripReloadBanner — decides over errlog.Abort) is called on every path after the Send for the first command, and once more under the guard <second part of strings.Cut(cmd, \"\\n\")> != \"\" for a joined two-command line. Linux additionally compares the output of `echo $?`.")
 	n := 0
 	for _, fn := range allModFuncs(p) {
-		if pkgOfFunc(fn) == "console" {
+		if pkgOfFunc(fn) == "console" || (only != "" && pkgOfFunc(fn) != only) {
 			continue
 		}
 		sends := callsTo(fn, "(*console.Conn).Send")
@@ -177,6 +335,7 @@ func ruleOutputValidated(p *Prog, m *Model, r *Report) {
 			cs *callSite
 		}
 		var uncond, guarded int
+		var lostVerdict []string
 		// second part of Cut
 		var second ssa.Value
 		for _, cs := range callsOf(fn) {
@@ -198,7 +357,14 @@ func ruleOutputValidated(p *Prog, m *Model, r *Report) {
 				continue
 			}
 			if ok, _ := validatesDeviceOutput(callee, isConnRead); !ok {
-				continue
+				// result form: the callee returns the verdict and the caller aborts
+				if cs.In.Value() == nil || !returnsDeviceVerdict(callee, isConnRead) {
+					continue
+				}
+				if lost := verdictMustReachAbortGuard(p, cs.In); lost != "" {
+					lostVerdict = append(lostVerdict, "verdict of "+cs.calleeName()+" at "+p.ipos(cs.In)+" is lost before "+lost)
+					continue
+				}
 			}
 			if !idom(send.In, cs.In) {
 				continue
@@ -247,13 +413,17 @@ func ruleOutputValidated(p *Prog, m *Model, r *Report) {
 		}
 		r.add("R09.1", "first-answer-validated|"+shortName(fn), p.ipos(send.In),
 			fmt.Sprintf("%d validation(s) of the device's answer on every path after Send", uncond), uncond >= 1,
-			"a rejected command is not noticed before the next command is sent")
+			"a rejected command is not noticed before the next command is sent "+strings.Join(lostVerdict, "; "))
 		if second != nil {
 			r.add("R09.1", "second-answer-validated|"+shortName(fn), p.ipos(send.In),
 				fmt.Sprintf("%d validation(s) guarded by <second command> != \"\"", guarded), guarded >= 1,
-				"a failure in the second half of a joined two-command line is not noticed")
+				"a failure in the second half of a joined two-command line is not noticed "+strings.Join(lostVerdict, "; "))
 		}
 		// sent command is the parameter, not a part: both halves are sent in one packet
+	}
+	if only != "" {
+		r.floor("R09.1", "raw senders of change commands in package "+only, n, 1)
+		return
 	}
 	r.floor("R09.1", "raw senders of change commands", n, 3)
 	// linux exit status
@@ -940,7 +1110,7 @@ func checkC09(p *Prog, r *Report) {
 		r.fail("model", "model", "", err.Error(), "")
 		return
 	}
-	ruleOutputValidated(p, m, r)
+	ruleOutputValidated(p, m, r, "")
 	ruleErrorEdges(p, m, r)
 	ruleSaveLast(p, m, r)
 	r.rule("R09.3", "Error discipline (E6) in the session packages: every call whose result contains an error has that result looked at (tested, returned, wrapped, passed on), or the call is listed with a reason in tables/err_exempt.tsv; the fmt print family is exempt as a class.")
@@ -1168,7 +1338,8 @@ func ruleValidatorsExamineAllLines(p *Prog, r *Report) {
 			for _, b := range caller.Blocks {
 				if i := ifOf(b); i != nil {
 					c, _ := stripNot(i.Cond)
-					if c == e.Site.Value() && guardsAbort(i) {
+					if c == e.Site.Value() && (guardsAbort(i) || (caller.Signature.Results().Len() > 0 && len(returnsOf(caller)) > 1)) {
+						// (second form: the caller hands the verdict on as its result)
 						// and an argument derives from the connection's output
 						var src []ssa.Value
 						for _, cs := range callsOf(caller) {
